@@ -1094,6 +1094,17 @@ class SymNP(types.ModuleType):
     def exp(self, x):
         return _u_exp(x)
 
+    # angle conversions always go through the symbolic pi (a float 2.0943951... would not be recognised as 2 pi / 3)
+    def deg2rad(self, x):
+        return _u_deg2rad(sarr(x, copy=False)) if _np.ndim(x) else conv(x) * core.CTX.pi / 180
+
+    radians = deg2rad
+
+    def rad2deg(self, x):
+        return _u_rad2deg(sarr(x, copy=False)) if _np.ndim(x) else conv(x) * 180 / core.CTX.pi
+
+    degrees = rad2deg
+
     def sinc(self, x):
         from . import phase
 
